@@ -6,8 +6,8 @@ from . import common
 
 PROP = "C07"
 GROUPS = ("whitespace", "indent", "alignment", "case")
-KQ = ("NL", "J", "W3", "WT", "CE", "IND3")
-KT = KQ + ("NLI", "W0", "CD", "CO", "BL", "IND0", "UP", "LO")
+KQ = ("NL", "W3", "J", "IND3")
+KT = KQ + ("WT", "CE", "NLI", "W0", "CD", "CO", "BL", "IND0", "UP", "LO")
 
 
 class Mon(drivers.Monitor):
